@@ -662,6 +662,23 @@ func (c *c06ctx) ruleR4() {
 					if call, ok := ci.If.Cond.(*ssa.Call); ok && call.Call.StaticCallee() != nil && c.hasPred[call.Call.StaticCallee()] == w.h && ci.Branch == 0 {
 						present = true
 					}
+					// the predicate written out: <handle> != nil (the field itself or the value just read from it)
+					if bo, ok := ci.If.Cond.(*ssa.BinOp); ok && (bo.Op == token.NEQ || bo.Op == token.EQL) {
+						var other ssa.Value
+						if k, isC := bo.Y.(*ssa.Const); isC && k.Value == nil {
+							other = bo.X
+						} else if k, isC := bo.X.(*ssa.Const); isC && k.Value == nil {
+							other = bo.Y
+						}
+						if other != nil {
+							_, f, _, okf := FieldOf(other)
+							if (okf && f == w.h) || other == CallOf(w.in).Args[0] {
+								if (bo.Op == token.NEQ && ci.Branch == 0) || (bo.Op == token.EQL && ci.Branch == 1) {
+									present = true
+								}
+							}
+						}
+					}
 				}
 			}
 			key := fmt.Sprintf("%s.%s in %s", w.h, CallOf(w.in).StaticCallee().Name(), FuncName(fn))
